@@ -62,20 +62,12 @@ def readHdr (buf : Bytes) : Option Hdr :=
     some { id, b2, b3, qd, an, ns, ar }
   | _, _, _, _, _, _, _ => none
 
-/-- flag octet 2 as re-assembled by `Header::emit` from the parsed `Metadata`
-(QR, 4-bit opcode, AA, TC, RD): every bit is re-emitted. -/
-def reB2 (b : Nat) : Nat :=
-  (b / 128 % 2) * 128 + (b / 8 % 16) * 8 + (b / 4 % 2) * 4 + (b / 2 % 2) * 2 + b % 2
-
-/-- flag octet 3 as re-assembled by `Header::emit` (RA, AD, CD, 4-bit rcode).
-The Z bit (0x40) is not part of `Metadata` and is therefore dropped. -/
-def reB3 (b : Nat) : Nat :=
-  (b / 128 % 2) * 128 + (b / 32 % 2) * 32 + (b / 16 % 2) * 16 + b % 16
-
-/-- `Header::emit` of a header that was read by `Header::read` (opcode and rcode nibbles
-round-trip through `OpCode`/`ResponseCode`). -/
-def emitHdr (h : Hdr) : Bytes :=
-  be16 h.id ++ [reB2 h.b2, reB3 h.b3] ++ be16 h.qd ++ be16 h.an ++ be16 h.ns ++ be16 h.ar
+/-- The 12 header octets that enter the TSIG digest (repaired code, /repo 84e713d): the header
+*as received* — octets 2..9 (both flag octets incl. the Z bit, QDCOUNT, ANCOUNT, NSCOUNT)
+verbatim — with the id replaced by `oid` and ARCOUNT by `ar`:
+`header.copy_from_slice(&message[..12]); header[..2] = oid; header[10..] = additionals`. -/
+def hdrDigest (buf : Bytes) (oid ar : Nat) : Bytes :=
+  be16 oid ++ (buf.drop 2).take 8 ++ be16 ar
 
 def Hdr.isResponse (h : Hdr) : Bool := h.b2 / 128 % 2 == 1
 def Hdr.opcode (h : Hdr) : Nat := h.b2 / 8 % 16
